@@ -56,7 +56,9 @@ CheckC09(e) ==
                    ELSE Tag(e.varsA = e.varsB, "restored-variables-differ")
                         \* JSON is a tree: two variables sharing one array/dict come back as two copies (tagged separately)
                         \cup Tag(Len(e.a) = Len(e.b) /\ \A i \in 1..Len(e.a) : SameOutcome(e.a[i], e.b[i]),
-                                 IF e.aliased THEN "behaviour-differs-after-restore-of-shared-containers" ELSE "behaviour-differs-after-restore")
+                                 IF e.aliased THEN "behaviour-differs-after-restore-of-shared-containers"
+                                 ELSE IF e.flagBody THEN "behaviour-differs-after-restore-of-bodies-compiled-under-other-flags"
+                                 ELSE "behaviour-differs-after-restore")
                         \cup Tag(\A i \in 1..Len(e.a) : ~e.a[i].panic /\ ~e.b[i].panic, "crash-after-restore")))
 
 \* c09u: a value that JSON cannot represent (reference cycle, non-finite float): serialising it, alone or as part of the
